@@ -21,7 +21,7 @@ func TestVerifC02(t *testing.T) {
 	if r.Thorough() {
 		maxCuts = 3
 	}
-	r.SetBound(fmt.Sprintf("all block partitions with <=%d cuts + all uniform block sizes, stream length 4*nsamp+14, (npre,nsamp) in {(3,5),(4,14)}, signed/unsigned, 10 edge/level/auto configurations, 5 control histories (restored, configured before, configured after block 1, ConfigurePulseLengths same/different), single/double pulses; for the rising-level configurations also one or two fast pulses followed by a slow level-only pulse at every offset", maxCuts))
+	r.SetBound(fmt.Sprintf("all block partitions with <=%d cuts + all uniform block sizes, stream length 4*nsamp+14, (npre,nsamp) in {(3,5),(4,14)}, signed/unsigned, 10 edge/level/auto configurations, 5 control histories (restored, configured before, configured after block 1, ConfigurePulseLengths same/different), single/double pulses; for the rising-level configurations also one or two fast pulses followed by a slow level-only pulse at every offset; a third channel with the same settings and pulses at other times; ConfigurePulseLengths after block 1 from (4,34) to (3,5), (3,5) to (4,30), (8,30) to (3,9) on streams of 2*nsamp+14, completeness required across the change (the undecided tail of the old length included)", maxCuts))
 	vTrigCases(r, false, func(id string, sc *vTrigScenario) {
 		built := false
 		r.DFS(id, -1, func(x *vexp.X) vexp.Result {
